@@ -120,6 +120,9 @@ func C17Scenario() *Scenario {
 		}
 		s := newRollingSetup(w, RollingOpts{Workers: 3, MaxParents: 3, Customize: true})
 		cfg := s.Cfg
+		// a hook that answers without any status (legal): the controller supplies one
+		s.TP.NilStatus = t.Pick(3, "nilstatus") == 2
+		w.Cfg["hookStatus"] = map[bool]string{true: "none", false: "given"}[s.TP.NilStatus]
 		// a decorator in the same process, sharing the parent informer (or the
 		// child informer) and the informers of related kinds
 		if t.Pick(4, "decorator") > 0 {
